@@ -29,39 +29,40 @@ STRENGTH = "partial"
 LEVEL_TEXT = (
     "Lean theorems for every state of the closed loop of one object (any records, last-handled state, deletion mark, own "
     "finalizer, memory flags incl. the in-memory set of resuming handlers already done (6c4463d), clock, handler set, lifecycle, "
-    "limits, delays — no bounds). FULL (no guard beyond well-formedness): terminates (every cause incl. deletion and the "
-    "finalizer-adjusting turn composed with C06's `decision`; explicit bound = ranking function; the outcomes from the state on "
-    "are final — 'finitely many failures' enters as an ARBITRARY prefix of turns (restart_safe), it is not proved that a script's "
-    "retry counters leave its failing prefix), all_selected_completed, restart_safe (induction over every history of turns with "
-    "arbitrary outcomes, edits, deletion requests, restarts, kills before/after the write, where EACH action has its own "
-    "environment: selection, prematch, finalizer requirement may change with every edit), accumulated_change (cause from "
-    "last-handled and final essence only, at most one closing pass; the old/new/diff kwargs are checked by the oracle only), "
-    "skip_path_purges, blind_quiescent, free_quiescent (marked, not held by us, held by others: one turn, no write beyond the "
-    "constant patch). PARTIAL, each with the exact guard in its name/statement and a proved witness that the guard is needed: "
-    "final_state_partial / final_state_deleted_partial / converges_partial / deletion_converges_partial / "
-    "open_pass_leaves_event_partial / invoked_once_after_last_change under `idle env = false` (no handler appends a patch "
-    "function that yields no operations) — without it idle_fns_lost_wakeup_witness: the sleep and the touch are skipped, no "
-    "request is sent, no event follows, the retry never happens (OPEN finding C03-N1; its carried-patch variant C03-N2 is found by "
-    "the oracle); completed_against_final_partial under 'the handler has not finished yet when the final state arrives' — "
-    "without it absorbed_change_witness (OPEN C03-F4); final_state_partial needs `prematch` — without it blind_witness (OPEN "
-    "C03-F2); shared_id_witness: one id registered for update and delete, the finished update record is taken for the deletion "
-    "handler's (OPEN C03-N3; the model mirrors the code, the property's clause 'every selected handler completed' is stated "
-    "per ID in all_selected_completed, so only the oracle, which counts CALLS of the deletion handler, sees it); "
-    "terminates_stable is `terminates` transported under the guard FiltersStable, which IS the needed fact "
-    "(filtersStable_of_essence gives the sufficient condition 'filters read the essence only'). Repaired in /repo and kept as "
-    "regressions: C03-F1 (2ae938f), C03-F3 (d1b2dc4), C03-F5 (1c8f3dd, finalizer functions only — the rest is N2), C03-F7 "
-    "(7224f57). C03-F6 (name-addressed patches after delete+recreate) lies in C08's part and is found by the oracle only. 'A "
-    "further event causes no write' reads `writes + cp env`: with a constant patch one request per event is sent, changing "
-    "nothing. ORACLE/TIE ONLY: changes made while down are seen after the start (`restart` sets `pending` by definition; tie), "
-    "old/new/diff of the accumulated change, delivery timings (one `pending` flag; stale/suppressed cycles are C07's). The "
-    "model is hand-written and tied per turn to whole-operator simulations incl. finalizer turns, deletion tails, foreign "
-    "finalizers, idle patch functions; daemons (C09), the consistency wait (C07), patch conflicts (C08) are outside this model.")
+    "limits, delays — no bounds). FULL (no guard beyond well-formedness): terminates_or_fails (NO assumption on the handlers' "
+    "scripts: within the explicit bound = ranking function the loop is quiescent or reaches a handling turn that consumes one "
+    "scripted failure; every cause incl. deletion and the finalizer-adjusting turn composed with C06's `decision`), terminates "
+    "(its corollary once the outcomes are final), final_state_deleted, deletion_converges, open_pass_leaves_event (all three "
+    "patch classes: changing, constant, no request at all — C03-F7/7224f57 and C03-N1/b7bf39c), all_selected_completed, "
+    "restart_safe (induction over every history of turns with arbitrary outcomes, edits, deletion requests, restarts, kills "
+    "before/after the write, where EACH action has its own environment: selection, prematch, finalizer requirement may change "
+    "with every edit), accumulated_change (cause from last-handled and final essence only, at most one closing pass; the "
+    "old/new/diff kwargs are checked by the oracle only), skip_path_purges, blind_quiescent, free_quiescent. PARTIAL, each with "
+    "the exact guard in its statement and a proved witness that the guard is needed, replayed on the real code through the "
+    "corpus: final_state / converges need `prematch` — blind_witness (OPEN C03-F2) — and `marked = false` — for a marked object "
+    "held only by a foreign finalizer free_witness (OPEN C03-N4); completed_against_final_partial under 'the handler has not "
+    "finished yet when the final state arrives' — absorbed_change_witness (OPEN C03-F4); shared_id_witness: one id registered "
+    "for update and delete, the finished update record is taken for the deletion handler's (OPEN C03-N3; the model mirrors the "
+    "code, `all_selected_completed` is stated per ID, so only the oracle, which looks at the CALLS of the deletion handler, sees "
+    "it); terminates_stable is `terminates` transported under the guard FiltersStable, which IS the needed fact "
+    "(filtersStable_of_essence gives the sufficient condition 'filters read the essence only'). NOT PROVED: that a script with "
+    "finitely many failures is left behind after finitely many failure-consuming turns (needs: retry counters of selected "
+    "handlers are not reset while the cycle is open); every generated script is finite and judged by the oracle to the end. "
+    "Repaired in /repo and kept as regressions: C03-F1 (2ae938f), C03-F3 (d1b2dc4), C03-F5 (1c8f3dd, finalizer functions only — "
+    "the rest is C03-N2, OPEN, carried patches are C08's transport and not in this model: oracle only), C03-F7 (7224f57), C03-N1 "
+    "(b7bf39c, sleeping_handler_woken_instance), 5dff3c1 (lost echo + constant on.event result). C03-F6 (name-addressed patches "
+    "after delete+recreate) lies in C08's part and is found by the oracle only. 'A further event causes no write' reads `writes "
+    "+ cp env`: with a constant patch one request per event is sent, changing nothing. ORACLE/TIE ONLY: changes made while down "
+    "are seen after the start (`restart` sets `pending` by definition; tie), old/new/diff of the accumulated change, delivery "
+    "timings (one `pending` flag; stale/suppressed cycles are C07's). The model is hand-written and tied per turn to "
+    "whole-operator simulations incl. finalizer turns, deletion tails, foreign finalizers, patch functions without operations; "
+    "daemons (C09), the consistency wait (C07), patch conflicts and carried patches (C08) are outside this model.")
 THEOREMS = [("Kopf.Props.C03", "Kopf.C03." + n) for n in [
-    "terminates", "final_state_partial", "final_state_deleted_partial", "converges_partial", "deletion_converges_partial",
+    "terminates_or_fails", "terminates", "final_state", "final_state_deleted", "converges", "deletion_converges",
     "all_selected_completed", "completed_against_final_partial", "absorbed_change_witness",
-    "open_pass_leaves_event_partial", "idle_fns_lost_wakeup_witness", "invoked_once_after_last_change", "restart_safe",
-    "accumulated_change", "blind_quiescent", "blind_witness", "free_quiescent", "shared_id_witness",
-    "free_witness", "skip_path_purges", "terminates_stable", "filtersStable_of_essence"]]
+    "open_pass_leaves_event", "sleeping_handler_woken_instance", "invoked_once_after_last_change", "restart_safe",
+    "accumulated_change", "blind_quiescent", "blind_witness", "free_quiescent", "free_witness", "shared_id_witness",
+    "skip_path_purges", "terminates_stable", "filtersStable_of_essence"]]
 RULE = ("seeded histories of one object: 1-4 change handlers (create/update/resume/delete, label filters, retries/timeout/backoff/"
         "errors, scripts with finitely many temporary/arbitrary/permanent failures then ok, handlers that take time (8 %), ONE id "
         "registered for two causes (6 %), three lifecycles), 0-6 external ops (spec edits, reverts, label flips, annotation edits, "
@@ -82,13 +83,14 @@ ASSUMPTIONS = ["GUARD FiltersStable: selection / prematch / finalizer requiremen
                "framework itself writes (records, last-handled, touch-dummy, finalizer, status.<handler>); generated filters are "
                "label filters (no when=/field= filters: they are C15's; a filter reading status.<handler> is outside the guard); "
                "without the guard nothing is claimed (Props: terminates_stable)",
-               "GUARD `idle env = false` on the final-state / convergence / open-pass theorems: no cycle's patch consists of "
-               "functions only that yield no operation (OPEN findings C03-N1/N2 are exactly the complement; the model has the "
-               "class as `Env.idleFns` and behaves as the code does: idle_fns_lost_wakeup_witness; the tie compares such tails)",
-               "'finitely many failures': the theorems take the outcomes FROM the state on as final (`AllFinal`); the failing "
-               "prefix of a script is an arbitrary sequence of turns before it (restart_safe). That the retry counters of a "
-               "script leave its failing prefix is not proved; every generated script has finitely many failures and the oracle "
-               "checks its history to the end",
+               "'finitely many failures': terminates_or_fails needs no assumption on the scripts (each failure-consuming turn is "
+               "reached within the bound); `terminates` takes the outcomes from the state on as final (`AllFinal`). That finitely "
+               "many failure-consuming turns exhaust a finite script (retry counters of selected handlers are not reset while the "
+               "cycle is open) is not proved; every generated script has finitely many failures and the oracle checks its history "
+               "to the end",
+               "`memory.remaining_patch` (transformation functions carried over after a rejected JSON-patch) is not in the model: "
+               "a cycle that starts with a carried patch skips the handlers (OPEN finding C03-N2 lives there); the oracle judges "
+               "those histories, the tie skips tails in which a function is sent or carried (`user-patch-fns`, counted)",
                "`Env.subs` lists every sub-handler id occurring in stored or returned subrefs (else `writes` may miss a "
                "purge-only PATCH; termination and final_state do not depend on it); no sub-handlers are generated (their passes "
                "are C02's `cycle2` / C13's subject)",
@@ -634,8 +636,9 @@ def abstract_tail(sc: dict, tr: dict, cap: int) -> tuple[list | None, Any]:
     fn_users = [h for h in sc["handlers"] if any(_fn(a) for a in list(h.get("script", [])) + [h.get("default")])]
     idle_vals = None
     if fn_users:
-        # patch functions of the handlers: modelled only as the IDLE class (`Env.idleFns`) — on.event handlers appending an
-        # idempotent function of a constant, which yields no operation once the object carries the value; anything else is
+        # patch functions of the handlers: compared only as the IDLE class — on.event handlers appending an idempotent
+        # function of a constant, which yields no operation once the object carries the value: the patch is non-empty but
+        # sends no request, which since /repo b7bf39c is the same as no patch (formerly C03-N1); anything else is
         # C08's transport (JSON-patch after merge-patch, conflicts, carried patches), outside the model
         if all(h["kind"] == "event" and not h.get("script") and _fn(h.get("default")) and not isinstance(h["default"][1], str)
                and (len(h["default"]) < 3 or h["default"][2] == "ok") for h in fn_users):
@@ -795,7 +798,7 @@ def abstract_tail(sc: dict, tr: dict, cap: int) -> tuple[list | None, Any]:
         "marked": bool(c0["body"]["metadata"].get("deletionTimestamp")),
         "blocked": FINALIZER in (c0["body"]["metadata"].get("finalizers") or []),
         "changeReq": change_req, "foreignFins": foreign,
-        "constPatch": const_patch, "idleFns": idle_vals is not None,
+        "constPatch": const_patch,
         "resumed": sorted((mb or {}).get("resumed_handlers") or []),
         "prematch": not blind, "now": passes[0]["now"],
         "lat": 1 + round(float((sc.get("echo_delay") or {}).get("default", 0.0)) * 64), "cap": cap, "rtt": 1,
